@@ -407,6 +407,73 @@ def queue_release(r, F):
               "handle_io_complete drops piece_refs", "the write-queue references are released on io completion", "handle_io_complete does not release the PieceRefs", ln=hic.lo)
 
 
+def keeper_insert(r, F):
+    """Keeper::insert makes the piece visible to Store::load for as long as the returned PieceRef lives: it is stored under its key on BOTH arms of the table
+    entry (vacant: inserted; occupied: the newer version replaces the queued one) and the reference remembers the shard so that its drop unregisters it"""
+    K = "foyer_storage::keeper::Keeper"
+    ins = F.method(K, "insert")
+    pcs = [l for l in range(1, ins.argc + 1) if "Piece<" in ins.local_ty(l)]
+    if len(pcs) != 1:
+        raise AnchorMissing("Keeper::insert: piece parameter not found")
+    pc = pcs[0]
+    ent = ins.calls_to(r"hashbrown::HashTable::<T, A>::entry$")
+    if len(ent) != 1:
+        raise AnchorMissing("Keeper::insert: HashTable::entry not found exactly once")
+    ok = False
+    for (sb, pl, tm, other) in tables.variant_switch_on(ins, ent[0].idx):
+        if {"Occupied", "Vacant"} <= set(tm):
+            vi = [b for b in ins.calls_to(r"VacantEntry::<'a, T, A>::insert$") if pc in backslice(ins, b.term.args[1], "prov").args]
+            okv = bool(vi) and ins.must_pass(tm["Vacant"], [b.idx for b in vi])
+            # occupied: a store through the slot handed out by get_mut (or OccupiedEntry::insert / mem::replace on it) of (a clone of) the piece
+            gm = [b for b in ins.calls_to(r"OccupiedEntry::<'a, T, A>::(get_mut|into_mut)$")]
+            stores = []
+            for b in ins.blocks:
+                if b.cleanup:
+                    continue
+                for st in b.stmts:
+                    if st.k == "assign" and st.place.has_deref() and st.rv.k == "use" and any(bb == g.idx for g in gm for bb, _ in backslice(ins, mir.Operand({"c": {"l": st.place.local, "p": []}}), "prov").calls) \
+                            and pc in backslice(ins, st.rv.ops[0], "prov").args:
+                        stores.append(b.idx)
+            stores += [b.idx for b in ins.calls_to(r"OccupiedEntry::<'a, T, A>::insert$|mem::replace$|mem::swap$") if any(a.place is not None and pc in backslice(ins, a, "prov").args for a in b.term.args)]
+            oko = bool(stores) and ins.must_pass(tm["Occupied"], stores)
+            ok = okv and oko
+    r.require(ok, ins, "Keeper::insert stores the piece on both arms", "vacant -> insert(piece), occupied -> slot := piece, on every path of the arm",
+              "Keeper::insert does not register the piece under its key on every path (vacant and occupied): while the entry waits in the flusher queue Store::load misses it and "
+              "answers from the older disk copy (or reports a miss) — a read right after a write does not see the write", ln=ins.lo)
+    res = [st for b in ins.blocks if not b.cleanup for st in b.stmts if st.k == "assign" and st.rv.k == "agg" and (st.rv.j.get("adt") or "").endswith("keeper::PieceRef")]
+    ok2 = False
+    for st in res:
+        fl = dict(st.rv.agg_fields())
+        shard_some = any(s2.k == "assign" and s2.rv.k == "agg" and s2.rv.j.get("variant") == "Some" and fl["shard"].place is not None and s2.place.local == fl["shard"].place.local
+                         for b in ins.blocks for s2 in b.stmts)
+        ok2 = pc in backslice(ins, fl["piece"], "prov").args and shard_some
+    r.require(ok2, ins, "PieceRef remembers piece and shard", "PieceRef { piece, shard: Some(shard) }", "the PieceRef returned by Keeper::insert does not carry the piece / its shard: dropping it never unregisters the queue entry", ln=ins.lo)
+    # the runner keeps the reference of every ACCEPTED entry until the batch's io completes: recv pushes it on the `enqueued` edge, run hands exactly that vector to the io task
+    RUN = "foyer_storage::engine::block::flusher::Runner"
+    recv = F.method(RUN, "recv")
+    bp = recv.calls_to(r"buffer::Buffer::push$")
+    pushes = [b for b in recv.calls_to(r"Vec::<T, A>::push$") if backslice(recv, b.term.args[0], "prov").has_field("piece_refs", RUN)]
+    ok3 = len(bp) == 1 and len(pushes) == 1
+    if ok3:
+        ok3 = False
+        for (swb, neg) in tables._bool_switches_on(recv, bp[0].idx):
+            tt, ft = tables.bool_switch_targets(swb)
+            if neg:
+                tt, ft = ft, tt
+            ok3 = recv.must_pass(tt, [pushes[0].idx]) and any(of.endswith("Submission::CacheEntry") and n == "piece" for of, n in backslice(recv, pushes[0].term.args[1], "prov").fields)
+    r.require(ok3, recv, "accepted entry -> its PieceRef is kept", "on the `buffer accepted` edge the submission's piece is pushed to piece_refs on every path",
+              "Runner::recv does not keep the PieceRef of an entry the buffer accepted: the reference is dropped at once, the write-queue entry disappears before the data is indexed, and lookups in "
+              "between miss the entry", ln=recv.lo)
+    run = [f for f in F.descendants(F.method(RUN, "run")) if f.calls_to(r"Runner::<K, V, P>::submit_io_task$")]
+    if not run:
+        raise AnchorMissing("Runner::run: submit_io_task call not found")
+    g = run[0]
+    c = g.calls_to(r"Runner::<K, V, P>::submit_io_task$")[0]
+    prs = [a for a in c.term.args if a.place is not None and "keeper::PieceRef<" in (g.local_ty(a.place.local) or "")]
+    ok4 = len(prs) == 1 and any(t.callee and t.callee.endswith("mem::take") and backslice(g, t.args[0], "prov").has_field("piece_refs", RUN) for bb, t in backslice(g, prs[0], "prov").calls)
+    r.require(ok4, g, "the batch's io task receives the collected PieceRefs", "submit_io_task(.., mem::take(&mut self.piece_refs), ..)", "Runner::run does not hand the collected PieceRefs to the batch's io task", ln=c.term.ln)
+
+
 def run(chk, F):
     chk.run_rule("C01.load-order", "memory miss -> write queue (keeper) -> disk index; a keeper hit never goes to the engine", 3, common.load_order, F)
     chk.run_rule("C01.key-guard", "a disk hit is handed out only if the decoded key is equivalent to the requested key", 3, common.key_guard, F)
@@ -418,3 +485,4 @@ def run(chk, F):
     chk.run_rule("C01.seq-restore", "recovery restarts the sequence counter strictly above every recovered entry and tombstone", 4, seq_restore, F)
     chk.run_rule("C01.phantom", "a disk-only insert removes the in-memory copy of the key", 1, phantom, F)
     chk.run_rule("C01.both-tiers", "remove and clear reach both tiers on every path", 2, both_tiers, F)
+    chk.run_rule("C01.keeper-insert", "the write queue registers every piece on both table arms; accepted entries keep their reference until the batch io completes", 4, keeper_insert, F)
